@@ -121,6 +121,42 @@ def r2(db, rep):
     if not stores:
         rep.violation("R2-forget", "process_packet", facts.loc(f), "process_packet never advances the cumulative ACK")
         return
+    # the cumulative ACK moves WHENEVER the segment's ACK is ahead of it in serial arithmetic: with `seq_compare(new, old) > 0`
+    # true (and the segment being TCP) no other condition - the ACK's numeric value, flags - may keep the store from running
+    try:
+        atoms, table = formula.must_table(f, g.pos(stores[0]), lambda a: "seq_compare" in a and "ack_number_" in a)
+        ahead = [a for a in atoms if "seq_compare" in a]
+        bad_ = None
+        if len(ahead) == 1:
+            # atom key is normalised "x < y": `seq_compare(..) > 0` appears as "0 < seq_compare(...)"
+            pol_true = ahead[0].replace(" ", "").startswith("0<")
+            for vals, must in table.items():
+                v_ = dict(zip(atoms, vals))[ahead[0]]
+                if (v_ if pol_true else not v_) and not must:
+                    # paths leaving before the test (no TCP layer) do not count: ask again from the test itself
+                    bad_ = True
+        if bad_:
+            cpos = None
+            for b_ in g.blocks.values():
+                c_ = g.idx.get(b_.get("cond")) if b_.get("cond") is not None else None
+                if c_ is not None and "seq_compare" in facts.expr_str(c_) and "ack_number_" in facts.expr_str(c_):
+                    cpos = b_
+            # reachable from the true edge of the comparison's block to exit avoiding the store?
+            ok_ = cpos is not None and len(cpos["s"]) == 2 and \
+                g.reaches_exit_avoiding((cpos["s"][0], -1), [g.pos(stores[0])], normal_only=True, inclusive=True) is None and \
+                facts.strip_all(g.idx.get(cpos["cond"]))["k"] == "BinaryOperator" and facts.strip_all(g.idx.get(cpos["cond"])).get("op") != "&&"
+            if not ok_:
+                rep.violation("R2-forget", "process_packet:advance-always", facts.loc(f, stores[0]),
+                              "the cumulative ACK is not advanced on every path on which the segment's ACK is ahead of it "
+                              "(seq_compare(new, old) > 0): a further condition can keep the store from running - e.g. an ACK whose "
+                              "numeric value is 0 after the 2^32 wrap is ignored, SACKed ranges below it are kept and is_segment_acked "
+                              "answers false for acknowledged data")
+            else:
+                rep.ok("R2-forget", "process_packet:advance-always", facts.loc(f, stores[0]), "advanced whenever seq_compare(new, old) > 0")
+        elif len(ahead) == 1:
+            rep.ok("R2-forget", "process_packet:advance-always", facts.loc(f, stores[0]), "advanced whenever seq_compare(new, old) > 0")
+    except facts.AnalysisBroken:
+        pass
     for i, s in enumerate(stores):
         newv = facts.expr_str(s["c"][1])
         # the cleanup, by effect: every piece of AckedRange(old ACK, new ACK) is erased from the interval set - in a member
@@ -475,5 +511,35 @@ def r8(db, rep):
         rep.violation("R8-no-extra-filter", key, facts.loc(f, late[0]),
                       "%s() - which replaces ack_tracker_ by a fresh tracker when the connection is established - runs AFTER the tracker "
                       "was fed with the same segment: the SACK blocks of that segment are discarded with the old tracker" % late[0].get("cname"))
+    # (d) the transition to ESTABLISHED - the first segment that carries the peer's real ACK - re-creates the tracker from that
+    #     ACK: the one built earlier holds the placeholder of the SYN
+    for h in db.functions.values():
+        if h["id"] in resetters:
+            idx_h, par_h = facts.index_fn(h)
+            for x in facts.fn_nodes(h):
+                if x["k"] == "BinaryOperator" and x.get("op") == "=" and facts.strip_all(x["c"][0]).get("member") == "state_" and \
+                        "ESTABLISHED" in facts.expr_str(x["c"][1]):
+                    blk = par_h.get(x["id"])
+                    while blk is not None and blk["k"] != "CompoundStmt":
+                        blk = par_h.get(blk["id"])
+                    seeded = blk is not None and any(
+                        y["k"] in ("BinaryOperator", "CXXOperatorCallExpr") and y.get("op") == "=" and
+                        facts.strip_all(y["c"][0] if y["k"] == "BinaryOperator" else y["c"][1]).get("member") == "ack_tracker_" and
+                        "ack_seq" in facts.expr_str(y) for y in facts.walk(blk))
+                    k2 = "Flow::%s:reseed-on-established" % h["qual"].split("::")[-1]
+                    if seeded:
+                        rep.ok("R8-no-extra-filter", k2, facts.loc(h, x), "ack_tracker_ re-created from the segment's ACK where the flow becomes ESTABLISHED")
+                    else:
+                        rep.violation("R8-no-extra-filter", k2, facts.loc(h, x),
+                                      "the flow becomes ESTABLISHED without re-creating ack_tracker_ from the peer's ACK: the tracker still "
+                                      "holds the placeholder ACK 0 of the SYN and can only move forward from 0 in serial arithmetic - for a "
+                                      "peer sequence number in the upper half of the space it never follows the ACKs and drops every SACK block")
+    if late:
+        pass
+    elif not resetters:
+        rep.violation("R8-no-extra-filter", key, facts.loc(f, calls[0]),
+                      "no member of Flow re-creates ack_tracker_ from the peer's first ACK any more: the tracker built with the placeholder "
+                      "ACK 0 can only move forward from 0 in serial arithmetic, so for an initial sequence number in the upper half of the "
+                      "sequence space it never follows the peer's ACKs and drops every SACK block as `below the ACK`")
     else:
         rep.ok("R8-no-extra-filter", key, facts.loc(f, calls[0]), "no member that replaces the tracker (%d found) runs after it was fed" % len(resetters))
